@@ -23,5 +23,6 @@ func transC01(r *Repo) []Fact {
 		out = append(out, unknownFact("pregelChannelTranslated", "Bool", "false", "compose/pregel.go", "not in the translated subset: "+strings.Join(pregel.errs, "; ")))
 	}
 	out = append(out, mgrFact(mgr))
+	out = append(out, transStep(r, mgr))
 	return out
 }
